@@ -1,6 +1,7 @@
 package main
 
 import (
+	"encoding/json"
 	"fmt"
 
 	"github.com/pomerium/webauthn"
@@ -283,4 +284,58 @@ func init() {
 	}
 	register("C01", inMem("auth.inMemory"))
 	register("C07", inMem("auth.inMemory"))
+
+	// ---- the credential as the JSON document a browser sends (WebAuthn Level 3 adds response members that repeat, unsigned, what the
+	// attestation object says): the ceremony's verdict and what it stores are those of the attestation object ----
+	viaJSON := func(name string) Stream {
+		return Stream{name, func(c *Ctx) {
+			r := c.R
+			n := c.N(8, 400)
+			for i := 0; i < n; i++ {
+				for _, f := range allFormats {
+					s := newRegSpec(r, f, pick(r, credAlgsFor(f)))
+					s.AttAlg = pick(r, attAlgsFor(f))
+					b := buildRegistration(r, s)
+					op := b.Op()
+					// another authenticator's data (another credential id and key), and this one's with a bit changed
+					s2 := newRegSpec(r, f, pick(r, credAlgsFor(f)))
+					s2.AttAlg = pick(r, attAlgsFor(f))
+					s2.Origin, s2.Client = s.Origin, s.Client
+					other := buildRegistration(r, s2)
+					flipped := append([]byte{}, b.AuthData...)
+					if len(flipped) > 0 {
+						flipped[r.Intn(len(flipped))] ^= 1 << uint(r.Intn(8))
+					}
+					dev := pick(r, []string{"same", "other", "flipped", "absent", "empty"})
+					resp := M{"clientDataJSON": b64u(b.CDJ), "attestationObject": b64u(b.AttObj())}
+					switch dev {
+					case "same":
+						resp["authenticatorData"] = b64u(b.AuthData)
+					case "other":
+						resp["authenticatorData"] = b64u(other.AuthData)
+						resp["publicKey"] = b64u(other.Cred.COSE(true))
+					case "flipped":
+						resp["authenticatorData"] = b64u(flipped)
+					case "empty":
+						resp["authenticatorData"] = ""
+					}
+					if r.Bool() {
+						resp["publicKeyAlgorithm"] = pick(r, []int{-7, -257, -8, 0, 1})
+						resp["transports"] = pick(r, [][]string{{"usb"}, {"internal", "hybrid"}, {}})
+					}
+					doc := M{"id": b64u(b.RawID), "rawId": b64u(b.RawID), "type": "public-key", "response": resp}
+					if r.Bool() {
+						doc["authenticatorAttachment"] = pick(r, []string{"platform", "cross-platform"})
+						doc["clientExtensionResults"] = M{"credProps": M{"rk": r.Bool()}}
+					}
+					j, _ := json.Marshal(doc)
+					op["credJSON"] = hx(j)
+					op["_dev"] = "level3/" + dev
+					executors["register"](c, name, op)
+				}
+			}
+		}}
+	}
+	register("C03", viaJSON("reg.viaJSON"))
+	register("C02", viaJSON("reg.viaJSON"))
 }
